@@ -44,6 +44,30 @@ def gen_cases(tier, seed):
 
 
 FIXED_FINITE = [
+    {  # mutual recursion in which B's SHALLOWEST derivation goes back through A while a deeper one avoids it
+        "name": "fin_mutual_back",
+        "abstracts": [{"name": "A", "parent": None, "style": "abc"}, {"name": "B", "parent": None, "style": "abc"}],
+        "prods": [
+            {"name": "Leaf", "parent": "A", "fields": [["v", ["ann", ["int"], ["IntRange", 0, 1]]]]},
+            {"name": "Wrap", "parent": "A", "fields": [["b", ["ref", "B"]]]},
+            {"name": "Back", "parent": "B", "fields": [["a", ["ref", "A"]]]},
+            {"name": "Far", "parent": "B", "fields": [["p", ["ref", "Pair"]]]},
+            {"name": "Pair", "parent": None, "fields": [["x", ["ref", "Leaf"]], ["y", ["ref", "Leaf"]]]},
+        ],
+        "start": "A",
+    },
+    {  # the same shape entered at B, and with a third category of minimum depth 2 as the deeper exit
+        "name": "fin_mutual_back3",
+        "abstracts": [{"name": "A", "parent": None, "style": "abc"}, {"name": "B", "parent": None, "style": "abc"}, {"name": "C", "parent": None, "style": "decorator"}],
+        "prods": [
+            {"name": "Leaf", "parent": "A", "fields": []},
+            {"name": "Wrap", "parent": "A", "fields": [["b", ["ref", "B"]], ["k", ["bool"]]]},
+            {"name": "Back", "parent": "B", "fields": [["a", ["ref", "A"]]]},
+            {"name": "Out", "parent": "B", "fields": [["c", ["ref", "C"]]]},
+            {"name": "Deep", "parent": "C", "fields": [["l", ["ref", "Leaf"]]]},
+        ],
+        "start": "B",
+    },
     {  # nested abstract layer and a union offering an abstract type next to a leaf: full creation must keep growing
         "name": "fin_nested_abstract",
         "abstracts": [{"name": "Expr", "parent": None, "style": "abc"}, {"name": "Op", "parent": "Expr", "style": "decorator"}],
